@@ -87,8 +87,54 @@ def check_decode(flags, celltype):
     return {"violated": False, "detail": "decoder agrees with the layout oracle", "flags": hex(flags)}
 
 
+def check_payloads():
+    """the value a decoded record carries: dates (incl. fractional seconds before and after the epoch), durations, booleans and
+    numbers (decimal128 built from the documented bit layout, independently of the library's writer)"""
+    from datetime import datetime, timedelta
+    from fractions import Fraction
+    from numbers_parser.cell import Cell
+    from numbers_parser.generated import TSTArchives_pb2 as T
+    epoch = datetime(2001, 1, 1)
+
+    def rec(celltype, flags, payload):
+        r = bytearray(12)
+        r[0], r[1] = 5, celltype
+        r[8:12] = struct.pack("<i", flags)
+        return r + payload
+    for s in (0.0, 1.0, 86399.5, 0.25, -0.25, -1.5, -86400.75, 675000000.125, -978307199.5, 12345.000001, -12345.000001):
+        cell = Cell._from_storage(0, 0, 0, rec(T.dateCellType, 4, struct.pack("<d", s)), _StubModel())
+        want = epoch + timedelta(seconds=s)
+        if cell.value != want:
+            return {"violated": True, "detail": f"a date record carrying {s!r} seconds from the epoch decodes to {cell.value!r}; the stored instant is {want!r}"}
+    for s in (0.0, 90.25, -1.5, 604800.0, 1e-6):
+        cell = Cell._from_storage(0, 0, 0, rec(T.durationCellType, 2, struct.pack("<d", s)), _StubModel())
+        if cell.value != timedelta(seconds=s):
+            return {"violated": True, "detail": f"a duration record carrying {s!r} s decodes to {cell.value!r}"}
+    for d, want in ((1.0, True), (0.0, False), (2.0, True)):
+        cell = Cell._from_storage(0, 0, 0, rec(T.boolCellType, 2, struct.pack("<d", d)), _StubModel())
+        if cell.value is not want:
+            return {"violated": True, "detail": f"a boolean record carrying {d!r} decodes to {cell.value!r}"}
+    for m, e, neg in ((15, -1, False), (3, 0, True), (123456789012345, -5, False), (1, 10, False), (0, 0, False), (30000000000000004, -17, False)):
+        raw = bytearray(m.to_bytes(14, "little") + bytes(2))
+        biased = e + 0x1820
+        raw[14] |= (biased & 0x7F) << 1
+        raw[15] = (biased >> 7) | (0x80 if neg else 0)
+        cell = Cell._from_storage(0, 0, 0, rec(T.numberCellType, 1, bytes(raw)), _StubModel())
+        want = float(Fraction(m) * Fraction(10) ** e * (-1 if neg else 1))
+        if cell.value != want:
+            return {"violated": True, "detail": f"a number record carrying the decimal {'-' if neg else ''}{m}e{e} decodes to {cell.value!r}; its value is {want!r}"}
+    return {"violated": False}
+
+
 def search_decoder(job):
     """Bounded native search used when a counter-model does not replay: all single and pairwise flag-bit sets."""
+    try:
+        r = check_payloads()
+    except Exception as e:  # noqa: BLE001
+        r = {"violated": True, "detail": f"decoding a well-formed record raised {type(e).__name__}: {e}"}
+    if r["violated"]:
+        r["job"] = {"custom": "replay_payloads"}
+        return r
     types = job.get("types", [2])
     for t in types:
         for i in range(21):
@@ -226,6 +272,10 @@ def search_encoder(job):
         if got != want:
             return {"violated": True, "detail": f"the record of a {kind} cell holding {v!r} carries {got!r} in its value word; the value is {want!r}"}
     return {"violated": False}
+
+
+def replay_payloads(job):
+    return check_payloads()
 
 
 NATIVE = {}
